@@ -40,7 +40,7 @@ def tie(rep, tier, rng, model_ok):
     n = 120 if q else 3000
     benches = [simgen.gen_fault(rng) for _ in range(n)] + [simgen.gen_deadlock(rng) for _ in range(n)] + \
               [simgen.gen_net(rng, hier=True) for _ in range(n)] + [simgen.gen_sched(rng) for _ in range(n)] + \
-              [simgen.gen_nested(rng) for _ in range(n)]
+              [simgen.gen_nested(rng) for _ in range(n)] + [simgen.gen_reply_unread(rng) for _ in range(max(20, n // 4))]
     dis, orc, lm, mo, res = simcheck.compare_cases(rep, "drop-after-bench", benches, model_ok, thread_counts=(1, 4) if q else (1, 2, 4, 16),
                                                    oracles=(oracles.o_harness,), nontrivial=lambda c, o: True)
     simcheck.report(rep, "drop-after-bench", benches, dis, orc, lm, mo, res)
@@ -78,7 +78,7 @@ def tie(rep, tier, rng, model_ok):
         th, c, e, line = bad[0]
         rep.violation("drop-oracle", {"kind": "property-violated-on-implementation", "threads": th, "why": e,
                                       "case": simcase.render(c, bugs=simcheck.current_bugs(), threads=th), "observed": line[:2000]})
-    rep.cov["rule"] = "task level: cancel / drop-runnable / drop-token racing with wakers and a runner on the verbatim task.rs (oracle: future and memory released exactly once, no access after free); simulation level: the Simulation is dropped at the end of fault, deadlock, hierarchy and scheduling benches (pending actions, blocked senders, pending queries; handlers that build, run and drop a nested simulation on 1..3 threads) on 1..16 threads: every added model dropped exactly once, no model code afterwards, the drop returns"
+    rep.cov["rule"] = "task level: cancel / drop-runnable / drop-token racing with wakers and a runner on the verbatim task.rs (oracle: future and memory released exactly once, no access after free); simulation level: the Simulation is dropped at the end of fault, deadlock, hierarchy and scheduling benches (pending actions, blocked senders, pending queries; handlers that build, run and drop a nested simulation on 1..3 threads; process_query whose reply is produced but left unread because the run fails afterwards) on 1..16 threads: every added model dropped exactly once, no model code afterwards, the drop returns"
 
 
 def replay(rep, path, model_ok):
